@@ -272,3 +272,156 @@ func HarnessC09Epoch(a []int) {
 	verifObserve("reconnects", reconnects)
 }
 var _ cemi.Message
+
+func init() {
+	verifHarnesses["HarnessC09Parked"] = HarnessC09Parked
+	verifHarnesses["HarnessC09SendAcross"] = HarnessC09SendAcross
+	verifHarnesses["HarnessC09Traffic"] = HarnessC09Traffic
+}
+
+// c09Gateway answers connect requests with the given channel, heartbeats with OK and (optionally)
+// tunnelling requests with an acknowledgement.
+func c09Gateway(sock *vSock, newCh uint8, ackTunnel bool) {
+	frames := make(chan knxnet.ServicePackable, 64)
+	sock.onSend = func(p knxnet.ServicePackable) { frames <- p }
+	go func() {
+		verifDaemon()
+		for f := range frames {
+			switch r := f.(type) {
+			case *knxnet.ConnStateReq:
+				sock.in <- &knxnet.ConnStateRes{Channel: r.Channel, Status: 0}
+			case *knxnet.ConnReq:
+				sock.in <- &knxnet.ConnRes{Channel: newCh, Status: 0}
+			case *knxnet.TunnelReq:
+				if ackTunnel {
+					sock.in <- &knxnet.TunnelRes{Channel: r.Channel, SeqNumber: r.SeqNumber, Status: 0}
+				}
+			}
+		}
+	}()
+}
+
+// HarnessC09Parked: telegrams accepted (and acknowledged) while the application is not reading
+// survive a reconnect: the tunnel stays open, so nothing that was accepted may be lost.
+func HarnessC09Parked(a []int) {
+	sock := newVSock()
+	conn := vTunnel(sock, false)
+	c0, newCh := nondetU8(), nondetU8()
+	conn.channel = c0
+	c09Gateway(sock, newCh, true)
+	conn.wait.Add(1)
+	go conn.serve()
+	sock.in <- &knxnet.TunnelReq{Channel: c0, SeqNumber: 0, Payload: c04Msgs[0]}
+	sock.in <- &knxnet.TunnelReq{Channel: c0, SeqNumber: 1, Payload: c04Msgs[1]}
+	sock.in <- &knxnet.DiscReq{Channel: c0}
+	verifQuiesce()
+	sock.in <- &knxnet.TunnelReq{Channel: newCh, SeqNumber: 0, Payload: c04Msgs[2]}
+	verifQuiesce()
+	var got []cemi.Message
+	go func() {
+		verifDaemon()
+		for m := range conn.Inbound() {
+			got = append(got, m)
+		}
+	}()
+	verifQuiesce()
+	verifAssert("C09.parked.none_lost", len(got) == 3)
+	for i, m := range got {
+		verifAssert("C09.parked.in_order", m == c04Msgs[i])
+	}
+	acks, reconnects := 0, 0
+	for _, f := range sock.log {
+		switch f.(type) {
+		case *knxnet.TunnelRes:
+			acks++
+		case *knxnet.ConnReq:
+			reconnects++
+		}
+	}
+	verifAssert("C09.parked.acked_and_reconnected", acks == 3 && reconnects == 1)
+	verifCover("C09.parked.end")
+}
+
+// HarnessC09SendAcross: a Send that waits behind a pending (unacknowledged) Send while the gateway
+// drops and re-establishes the connection goes out on the new channel with the restarted counter.
+func HarnessC09SendAcross(a []int) {
+	sock := newVSock()
+	conn := vTunnel(sock, false)
+	conn.config.ResponseTimeout = 5100 * time.Millisecond
+	conn.config.ResendInterval = 4 * time.Second // few resend ticks: keeps the schedule space small
+	c0, s0, newCh := nondetU8(), nondetU8(), nondetU8()
+	conn.channel, conn.seqNumber = c0, s0
+	c09Gateway(sock, newCh, false) // tunnelling requests stay unacknowledged
+	conn.wait.Add(1)
+	go conn.serve()
+	done := make(chan error, 2)
+	go func() { done <- conn.Send(c04Msgs[0]) }()
+	verifSleep(int64(100 * time.Millisecond))
+	go func() { done <- conn.Send(c04Msgs[1]) }() // waits for the first one
+	verifSleep(int64(time.Second))
+	sock.in <- &knxnet.DiscReq{Channel: c0} // reconnect while both Sends are pending
+	<-done
+	<-done
+	sawReconnect := false
+	for _, f := range sock.log {
+		switch r := f.(type) {
+		case *knxnet.ConnReq:
+			sawReconnect = true
+		case *knxnet.TunnelReq:
+			if r.Payload == c04Msgs[1] {
+				// the waiting Send goes out either still on the old connection (old channel, old
+				// counter: the pending one timed out, so the counter did not move) or on the new one
+				// (new channel, counter restarted) - never a mixture
+				verifAssert("C09.across.consistent_pair", (r.Channel == newCh && r.SeqNumber == 0) || (r.Channel == c0 && r.SeqNumber == s0))
+			}
+		}
+	}
+	verifAssert("C09.across.reconnected", sawReconnect)
+	// once the reconnect has completed, a fresh Send uses the new channel and counter 0
+	if len(a) == 0 || a[0] == 0 {
+		verifCover("C09.across.end")
+		return
+	}
+	verifQuiesce()
+	n0 := len(sock.log)
+	go func() { done <- conn.Send(c04Msgs[2]) }()
+	verifSleep(int64(time.Second))
+	verifQuiesce()
+	req, ok := sock.log[n0].(*knxnet.TunnelReq)
+	verifAssert("C09.across.fresh_send_on_new_connection", ok && req.Channel == newCh && (req.SeqNumber == 0 || req.SeqNumber == 1))
+	verifCover("C09.across.end")
+}
+
+// HarnessC09Traffic: a = {heartbeat interval in s}: inbound frames (for a foreign channel, so they are
+// ignored) keep arriving every second; the first connection-state request is still due one
+// heartbeat interval after the connection was established, and the next one an interval later.
+func HarnessC09Traffic(a []int) {
+	sock := newVSock()
+	conn := vTunnel(sock, false)
+	conn.config.HeartbeatInterval = time.Duration(a[0])*time.Second + 300*time.Millisecond
+	c0 := nondetU8()
+	conn.channel = c0
+	c09Gateway(sock, c0, true)
+	conn.wait.Add(1)
+	go conn.serve()
+	hb := int64(conn.config.HeartbeatInterval)
+	go func() {
+		verifDaemon()
+		for i := 0; i < 2*a[0]+2; i++ {
+			verifSleep(int64(time.Second))
+			sock.in <- &knxnet.TunnelReq{Channel: c0 + 1, SeqNumber: nondetU8(), Payload: c04Msgs[0]}
+		}
+	}()
+	verifSleep(2*hb + int64(500*time.Millisecond))
+	verifQuiesce()
+	n := 0
+	for i, f := range sock.log {
+		if r, ok := f.(*knxnet.ConnStateReq); ok {
+			n++
+			verifAssert("C09.traffic.heartbeat_due", r.Channel == c0 && sock.stamps[i] <= int64(n)*hb)
+		}
+	}
+	verifAssert("C09.traffic.heartbeats_sent", n == 2)
+	close(conn.done)
+	verifCover("C09.traffic.end")
+}
